@@ -267,8 +267,17 @@ class World:
             ns['target_max'] = C.Limit()
         if kind in ('minmax', 'min-only'):
             ns['target_min'] = C.Limit()
+        decl = 'Limit()'
         if kind == 'limits':
-            ns['target_limits'] = C.Limit()
+            # the limits parameter is declared the usual way, or with an explicit datatype (copied at class creation and per instance)
+            from frappy.datatypes import LimitsType, FloatRange
+            decl = rng.choice(['Limit()', 'Limit()', 'Limit(datatype)', 'Parameter(LimitsType)'])
+            if decl == 'Limit()':
+                ns['target_limits'] = C.Limit()
+            elif decl == 'Limit(datatype)':
+                ns['target_limits'] = C.Limit(datatype=LimitsType(FloatRange(-100, 100)))
+            else:
+                ns['target_limits'] = C.Parameter('limits of the target', LimitsType(FloatRange(-100, 100)), readonly=False, default=(-100, 100))
         ns['target'] = C.Parameter('t', C.FloatRange(-100, 100), readonly=False)
         ns['value'] = C.Parameter('v', C.FloatRange(-100, 100))
 
@@ -283,7 +292,10 @@ class World:
         conn = self.nodes.Conn()
         node.dispatcher.add_connection(conn)
         lo, hi = -100.0, 100.0
-        case = {'sub': 'limits', 'kind': kind, 'ops': []}
+        if kind == 'limits':
+            lo, hi = (float(x) for x in m.target_limits)       # (an explicit datatype without default starts at (0, 0))
+        limits_wire = m.parameters['target_limits'].export if kind == 'limits' else None      # a plain Parameter is exported as _target_limits
+        case = {'sub': 'limits', 'kind': kind, 'declared': decl, 'ops': []}
         for step in range(rng.randint(3, 12)):
             op = rng.choice(['target', 'target', 'setlim'])
             via = rng.choice(['module', 'wire'])
@@ -298,7 +310,7 @@ class World:
                         if via == 'module':
                             m.write_target_limits(tuple(pair))
                         else:
-                            node.dispatcher.handle_request(conn, ('change', 'l:target_limits', pair))
+                            node.dispatcher.handle_request(conn, ('change', f'l:{limits_wire}', pair))
                         ok = True
                     except self.SECoPError:
                         ok = False
